@@ -14,6 +14,10 @@ package webrtc
 //       exactly one candidate with those fields per accepted case;
 //   (3) a candidate whose ufrag extension names no ufrag of the applied remote description: nil error and
 //       nothing reaches the agent.
+// (2) and (3) are judged in every signaling situation in which a remote description is applied (c25_situation_test.go):
+// each batch walks its PeerConnection along a negotiation history chosen by (seed, batch) — first offer pending,
+// answered, current + pending offer with the same / with new ICE credentials, restart answered, own offer pending,
+// remote offer rolled back, ... — and "applied" is decided by the monitor's own model of that history.
 
 import (
 	"encoding/hex"
@@ -53,12 +57,18 @@ type c25Case struct {
 	TCPType    string
 	Exts       []c25Ext // without the tcptype entry (added first, as ice.Candidate.Extensions() does)
 	UfragMode  string   // none | real | bogus
+	BogusKind  string   // how a bogus ufrag misses: empty | suffixed | prefixed | recased | truncated | previous-generation-or-random | random
 	Mid        string
 	MLine      uint16
 	Special    string // generator classes outside the DESIGN domain (divergence bookkeeping): zone, priority0, ...
 }
 
 const c25RealUfrag = "\x00REAL\x00"
+
+// c25StalePrefix marks a bogus ufrag that, at run time, becomes a ufrag of a remote description that WAS applied
+// earlier in the batch's history but is not the applied one any more (previous ICE generation, rolled-back offer);
+// when the history has none (first negotiation) the random token after the prefix is used, as before.
+const c25StalePrefix = "STALE:"
 
 func (c *c25Case) desc() string {
 	var b strings.Builder
@@ -93,7 +103,7 @@ func (c *c25Case) detail(extra map[string]any) map[string]any {
 }
 
 // allExts is the extension list the candidate carries, tcptype first (the order ice.Candidate.Extensions() uses).
-func (c *c25Case) allExts(realUfrag string) []ice.CandidateExtension {
+func (c *c25Case) allExts(realUfrag, staleUfrag string) []ice.CandidateExtension {
 	out := []ice.CandidateExtension{}
 	if c.TCPType != "" {
 		out = append(out, ice.CandidateExtension{Key: "tcptype", Value: c.TCPType})
@@ -101,7 +111,7 @@ func (c *c25Case) allExts(realUfrag string) []ice.CandidateExtension {
 	for _, e := range c.Exts {
 		v := strings.ReplaceAll(e.Value, c25RealUfrag, realUfrag)
 		if e.Key == "ufrag" {
-			v = c25Bogus(v, realUfrag)
+			v = c25Bogus(v, realUfrag, staleUfrag)
 		}
 		out = append(out, ice.CandidateExtension{Key: e.Key, Value: v})
 	}
@@ -110,7 +120,7 @@ func (c *c25Case) allExts(realUfrag string) []ice.CandidateExtension {
 }
 
 // build produces the ICECandidate under test.
-func (c *c25Case) build(realUfrag string) ICECandidate {
+func (c *c25Case) build(realUfrag, staleUfrag string) ICECandidate {
 	cand := ICECandidate{
 		Foundation: c.Foundation, Priority: c.Priority, Address: c.Address, Port: c.Port, Component: c.Component,
 		RelatedAddress: c.RelAddr, RelatedPort: c.RelPort, TCPType: c.TCPType, SDPMid: c.Mid, SDPMLineIndex: c.MLine,
@@ -133,7 +143,7 @@ func (c *c25Case) build(realUfrag string) ICECandidate {
 	}
 	if c.Origin == "ice" {
 		// exactly what newICECandidateFromICE does with candidate.Extensions()
-		cand.setExtensions(c.allExts(realUfrag))
+		cand.setExtensions(c.allExts(realUfrag, staleUfrag))
 	}
 
 	return cand
@@ -409,19 +419,22 @@ func c25Gen(r *kit.Rand, i int) *c25Case { //nolint:gocognit,cyclop,maintidx
 		if c.UfragMode != "none" {
 			v := c25RealUfrag
 			if c.UfragMode == "bogus" {
-				switch r.Intn(7) {
+				switch k := r.Intn(7); k {
 				case 0:
-					v = ""
+					v, c.BogusKind = "", "empty"
 				case 1:
-					v = c25RealUfrag + "x"
+					v, c.BogusKind = c25RealUfrag+"x", "suffixed"
 				case 2:
-					v = "x" + c25RealUfrag
+					v, c.BogusKind = "x"+c25RealUfrag, "prefixed"
 				case 3:
-					v = "RECASE" // replaced by a re-cased real ufrag at run time (see c25Bogus)
+					v, c.BogusKind = "RECASE", "recased" // replaced by a re-cased real ufrag at run time (see c25Bogus)
 				case 4:
-					v = "PREFIX"
+					v, c.BogusKind = "PREFIX", "truncated"
 				default:
-					v = c25Token(r, c25IceChars, 4, 16)
+					v, c.BogusKind = c25Token(r, c25IceChars, 4, 16), "random"
+					if k == 5 {
+						v, c.BogusKind = c25StalePrefix+v, "previous-generation-or-random"
+					}
 				}
 			}
 			at := r.Intn(len(c.Exts) + 1)
@@ -459,7 +472,14 @@ func c25Gen(r *kit.Rand, i int) *c25Case { //nolint:gocognit,cyclop,maintidx
 func c25GridSize() int { return 4 * 2 * 3 * 4 * 2 * len(c25ExtShapes) }
 
 // c25Bogus resolves the run-time dependent bogus ufrag values.
-func c25Bogus(v, real string) string {
+func c25Bogus(v, real, stale string) string {
+	if tok, ok := strings.CutPrefix(v, c25StalePrefix); ok {
+		if stale != "" {
+			return stale
+		}
+
+		return tok
+	}
 	switch v {
 	case "RECASE":
 		sw := []byte(real)
@@ -732,13 +752,15 @@ func c25Safely(f func()) (p any) {
 // ---------------------------------------------------------------- oracle 2/3: the agent's remote candidates
 
 type c25Pending struct {
-	skip   map[string]bool // fields whose difference oracle 1 already accounted for
-	idx    int
-	c      *c25Case
-	want   []ice.CandidateExtension
-	key    string
-	expect string // present | absent-ufrag | unobserved (active tcptype / mDNS name: ice ignores them by design) | tolerated
-	init   ICECandidateInit
+	skip      map[string]bool // fields whose difference oracle 1 already accounted for
+	idx       int
+	c         *c25Case
+	want      []ice.CandidateExtension
+	key       string
+	expect    string // present | absent-ufrag | unobserved (active tcptype / mDNS name: ice ignores them by design) | tolerated
+	ufragMode string // none | real | bogus | previous-generation (resolved against the batch's applied remote description)
+	named     string // the value of the ufrag extension
+	init      ICECandidateInit
 }
 
 func c25Key(proto, addr string, port int) string {
@@ -762,9 +784,24 @@ func c25Ufrags(sdpText string) []string {
 	return out
 }
 
+// c25Rig is one batch's PeerConnection under test (mon), its peer, and the monitor's model of what was applied.
 type c25Rig struct {
-	offerer, answerer *PeerConnection
-	ufrags            []string
+	mon, peer *PeerConnection // peer is nil for a foreign peer (generated SDP text only)
+	foreign   *genSDP
+	plan      c25Plan
+	ops       []string // the history as executed
+
+	// model of mon's remote descriptions (texts the monitor itself handed over)
+	pending, current  string
+	localOfferPending bool
+	seen              []string // every ufrag that appeared in a remote description given to mon, in order
+
+	applied string   // pending if there is one, else current
+	ufrags  []string // ufrags of the applied remote description
+	stale   []string // ufrags seen before that the applied description does not carry
+
+	peerHasChannel, peerAddedMedia bool
+	credUses                       int
 }
 
 // c25UfragToSessionLevel moves the ICE credentials of the offer from the media sections to the session part.
@@ -793,54 +830,17 @@ func c25UfragToSessionLevel(sdpText string) string {
 	return strings.Join(append(append(session, creds...), rest...), "\r\n")
 }
 
-func c25NewRig(sessionLevel bool) (*c25Rig, error) {
-	rig := &c25Rig{}
-	var err error
-	if rig.offerer, err = rigNewPC(rigOpts{Quiet: true}); err != nil {
-		return nil, err
-	}
-	if rig.answerer, err = rigNewPC(rigOpts{Quiet: true}); err != nil {
-		_ = rig.offerer.Close()
-
-		return nil, err
-	}
-	fail := func(e error) (*c25Rig, error) {
-		rig.close()
-
-		return nil, e
-	}
-	if _, err = rig.offerer.CreateDataChannel("c25", nil); err != nil {
-		return fail(err)
-	}
-	offer, err := rig.offerer.CreateOffer(nil)
-	if err != nil {
-		return fail(err)
-	}
-	if err = rig.offerer.SetLocalDescription(offer); err != nil {
-		return fail(err)
-	}
-	// the offer as created: no a=candidate lines, so the agent's remote set starts empty
-	if sessionLevel {
-		offer.SDP = c25UfragToSessionLevel(offer.SDP)
-	}
-	if err = rig.answerer.SetRemoteDescription(offer); err != nil {
-		return fail(err)
-	}
-	rig.ufrags = c25Ufrags(offer.SDP)
-	if len(rig.ufrags) == 0 {
-		return fail(errors.New("offer without ice-ufrag")) //nolint:err113
-	}
-
-	return rig, nil
-}
-
 func (g *c25Rig) close() {
-	_ = g.offerer.Close()
-	_ = g.answerer.Close()
+	if g.peer != nil {
+		_ = g.peer.Close()
+	}
+	if g.mon != nil {
+		_ = g.mon.Close()
+	}
 }
 
 func (g *c25Rig) remote() ([]ice.Candidate, error) {
-	tr := g.answerer.iceTransport
+	tr := g.mon.iceTransport
 	if tr == nil || tr.gatherer == nil {
 		return nil, errors.New("no ice transport / gatherer") //nolint:err113
 	}
@@ -860,13 +860,20 @@ func TestVerifC25(t *testing.T) { //nolint:gocognit,cyclop,maintidx
 	run := kit.Start(t, "C25", "ICECandidate values: indices 0..1151 enumerate type{host,srflx,prflx,relay} × protocol{udp,tcp} × address{IPv4,IPv6,mDNS name} × "+
 		"tcptype{none,active,passive,so} × related address{present,absent} × extension shape{none,one,one-empty,first-empty,last-empty,both-empty}; "+
 		"further indices are seeded random candidates (port/priority/component edges, IPv6 text forms, 0–4 extensions with empty values, ufrag "+
-		"extension naming / not naming a remote ufrag, struct-built candidates without extensions). Cases are the candidates the monitor's own "+
+		"extension naming / not naming a remote ufrag, struct-built candidates without extensions). Each batch of 250 candidates is submitted in one "+
+		"signaling situation reached by a negotiation history that is a function of (seed, batch): first remote offer pending; answered; own offer answered; "+
+		"remote pranswer pending; current + pending remote offer with the same / with new ICE credentials (ICE restart by a real peer, credentials rewritten by a "+
+		"foreign peer); restart answered; own (restart) offer pending; remote offer rolled back; own ICE restart answered — with who offered first, an earlier "+
+		"completed restart cycle, real / generated-foreign peer, session / media level credentials and added media random; a non-matching ufrag may be the "+
+		"ufrag of a previously applied (replaced or rolled-back) remote description. Cases are the candidates the monitor's own "+
 		"predicate c25Representable calls representable (IP-literal address, or a .local name on a host candidate); a ToICE error on such a candidate is a violation. "+
 		"A case is non-trivial when it carries an optional part (related address, tcptype or an extension) or a non-IPv4 address; distinct by full candidate text")
 	defer run.Finish()
 	run.Assume("pion/ice v4 UnmarshalCandidate is the parser AddICECandidate uses (peerconnection.go strips \"candidate:\" and calls it); its accessors are trusted to report what it parsed")
 	run.Assume("the ICE agent adds remote candidates asynchronously: a candidate is declared missing only after a sentinel submitted after it became visible and 300 further polls passed")
 	run.Assume("ice.Agent ignores remote candidates with tcptype active and (mDNS disabled in the rig) .local names by design; for those only the nil result is checked")
+	run.Assume("the applied remote description is the pending one if there is one, else the current one (JSEP 4.1.14/4.1.16), tracked by the monitor from the descriptions it handed over itself")
+	run.Assume("descriptions travel without a=candidate lines in both directions, so the peers never exchange connectivity checks and the agent's remote set holds only what the batch submits")
 
 	n := kit.N(20000, 1000000)
 	nBatches := (n + c25BatchSize - 1) / c25BatchSize
@@ -884,15 +891,27 @@ func TestVerifC25(t *testing.T) { //nolint:gocognit,cyclop,maintidx
 		if !wanted {
 			return
 		}
-		rig, err := c25NewRig(b%2 == 1)
-		run.Seen("remote_ufrag_location", map[bool]string{false: "media-level", true: "session-level"}[b%2 == 1])
+		plan := c25PlanFor(b)
+		rig, fellBack, err := c25NewRig(plan, b)
+		if fellBack {
+			run.Count("foreign_offer_refused_real_peer_used_instead", 1)
+		}
 		if err != nil {
-			run.Inconclusive("rig-setup:" + c25ErrClass(err))
+			run.Inconclusive("rig-setup:" + plan.Label + ":" + c25ErrClass(err))
+			t.Logf("C25 rig set-up failed for batch %d (%s): %v", b, plan, err)
 
 			return
 		}
 		defer rig.close()
-		rufrag := rig.ufrags[0]
+		plan = rig.plan
+		history := strings.Join(rig.ops, " > ")
+		run.Seen("remote_ufrag_location", c25UfragLocation(rig.applied))
+		run.Seen("signaling_situation", plan.Label)
+		run.Seen("situation_history", plan.Label+" := "+history+" ["+plan.Peer+" peer]")
+		run.Seen("situation_parameters", fmt.Sprintf("first-offer=%s peer=%s prior-restart-cycles=%d", plan.First, plan.Peer, plan.PriorCycles))
+		if len(rig.stale) > 0 {
+			run.Seen("situations_with_a_replaced_remote_ufrag", plan.Label)
+		}
 		if base, err := rig.remote(); err == nil && len(base) != 0 {
 			run.Inconclusive("agent-not-empty-at-start")
 
@@ -908,8 +927,28 @@ func TestVerifC25(t *testing.T) { //nolint:gocognit,cyclop,maintidx
 			}
 			r := run.CaseRand(i)
 			c := c25Gen(r, i)
-			cand := c.build(rufrag)
-			want := c.allExts(rufrag)
+			rufrag, stale := rig.ufrags[i%len(rig.ufrags)], ""
+			if len(rig.stale) > 0 {
+				stale = rig.stale[i%len(rig.stale)]
+			}
+			cand := c.build(rufrag, stale)
+			want := c.allExts(rufrag, stale)
+			// what the ufrag extension names, and whether the applied remote description (monitor's model) carries it
+			hasUfrag, named, ufragMode := false, "", c.UfragMode
+			for _, e := range want {
+				if e.Key == "ufrag" {
+					hasUfrag, named = true, e.Value
+				}
+			}
+			inApplied := hasUfrag && c25Contains(rig.ufrags, named)
+			switch {
+			case hasUfrag && !inApplied && c25Contains(rig.stale, named):
+				ufragMode = "previous-generation"
+			case hasUfrag && !inApplied:
+				ufragMode = "bogus"
+			case hasUfrag:
+				ufragMode = "real"
+			}
 
 			// --- representable? decided by c25Representable (own predicate over the generated fields), NOT by ToICE:
 			// ToICE is the core of ToJSON, the function under judgement, so its verdict cannot define the domain.
@@ -946,7 +985,13 @@ func TestVerifC25(t *testing.T) { //nolint:gocognit,cyclop,maintidx
 			run.Seen("address_form", c.AddrForm)
 			run.Seen("tcptype", c.Typ+"/"+c.Protocol+"/"+"tcptype="+c.TCPType)
 			run.Seen("origin", c.Origin)
-			run.Seen("ufrag_extension", c.UfragMode)
+			run.Seen("ufrag_extension", ufragMode)
+			if hasUfrag {
+				run.Seen("ufrag_extension_by_situation", plan.Label+": "+ufragMode)
+				if c.BogusKind != "" {
+					run.Seen("bogus_ufrag_kind", c.BogusKind)
+				}
+			}
 			run.Seen("extension_count", fmt.Sprint(len(c.Exts)))
 			for _, e := range c.Exts {
 				if e.Value == "" {
@@ -974,6 +1019,9 @@ func TestVerifC25(t *testing.T) { //nolint:gocognit,cyclop,maintidx
 				}
 				extra["candidate_line"] = init.Candidate
 				extra["remote_ufrags"] = rig.ufrags
+				extra["replaced_remote_ufrags"] = rig.stale
+				extra["situation"] = plan.String()
+				extra["history"] = rig.ops
 
 				return c.detail(extra)
 			}
@@ -1053,7 +1101,7 @@ func TestVerifC25(t *testing.T) { //nolint:gocognit,cyclop,maintidx
 			}
 			keys[key] = true
 			var aerr error
-			if p := c25Safely(func() { aerr = rig.answerer.AddICECandidate(init) }); p != nil {
+			if p := c25Safely(func() { aerr = rig.mon.AddICECandidate(init) }); p != nil {
 				run.Violation("panic:AddICECandidate", fmt.Sprintf("AddICECandidate panicked: %v on %q", p, init.Candidate), i, det(nil))
 
 				continue
@@ -1068,12 +1116,12 @@ func TestVerifC25(t *testing.T) { //nolint:gocognit,cyclop,maintidx
 
 				continue
 			}
-			p := &c25Pending{idx: i, c: c, want: want, key: key, init: init, skip: seenField}
+			p := &c25Pending{idx: i, c: c, want: want, key: key, init: init, skip: seenField, ufragMode: ufragMode, named: named}
 			switch {
 			case reported || parsed == nil || seenField["address"] || seenField["port"] || seenField["protocol"] ||
-				(seenField["extensions"] && c.UfragMode != "none"):
+				(seenField["extensions"] && hasUfrag):
 				p.expect = "tolerated" // what reaches the agent cannot be predicted from the generated values
-			case c.UfragMode == "bogus":
+			case hasUfrag && !inApplied:
 				p.expect = "absent-ufrag"
 				run.Count("ufrag_names_no_remote_ufrag", 1)
 			case parsed.TCPType() == ice.TCPTypeActive || strings.HasSuffix(c.Address, ".local"):
@@ -1093,7 +1141,7 @@ func TestVerifC25(t *testing.T) { //nolint:gocognit,cyclop,maintidx
 			Foundation: "sentinel", Priority: 1, Address: "198.51.100.77", Protocol: ICEProtocolUDP, Port: 7,
 			Typ: ICECandidateTypeHost, Component: 1,
 		}
-		if err := rig.answerer.AddICECandidate(sentinel.ToJSON()); err != nil {
+		if err := rig.mon.AddICECandidate(sentinel.ToJSON()); err != nil {
 			run.Inconclusive("sentinel-rejected:" + c25ErrClass(err))
 
 			return
@@ -1158,26 +1206,48 @@ func TestVerifC25(t *testing.T) { //nolint:gocognit,cyclop,maintidx
 			}
 		}
 
+		// a batch that outlived the agent's patience (no peer ever answers the checks: failed after ~30 s) lost its
+		// remote candidates to the agent's own clean-up; nothing can be judged then
+		if st := rig.mon.ICEConnectionState(); st == ICEConnectionStateFailed || st == ICEConnectionStateClosed {
+			run.Inconclusive("ice-agent-" + st.String() + "-during-batch")
+
+			return
+		}
+
 		// --- verdicts per pending case
+		where := "" // situation class in signatures; empty for the first-remote-offer workload
+		if plan.SigClass != "" {
+			where = ":" + plan.SigClass
+		}
+		sitText := fmt.Sprintf("situation %s (history: %s; %s peer); applied remote description carries ufrag %q, replaced/rolled-back ones carried %q",
+			plan.Label, history, plan.Peer, rig.ufrags, rig.stale)
 		claimed := map[string]bool{sentinelKey: true}
 		for _, p := range pend {
 			claimed[p.key] = true
 			found := got[p.key]
-			det := p.c.detail(map[string]any{"candidate_line": p.init.Candidate, "remote_ufrags": rig.ufrags, "agent_has": len(found)})
+			det := p.c.detail(map[string]any{
+				"candidate_line": p.init.Candidate, "remote_ufrags": rig.ufrags, "replaced_remote_ufrags": rig.stale, "agent_has": len(found),
+				"situation": plan.String(), "history": rig.ops, "ufrag_named": p.named, "ufrag_mode": p.ufragMode,
+			})
 			switch p.expect {
 			case "present":
 				switch {
 				case len(found) == 0:
-					sig := "agent-missing:" + p.c.Typ
-					if p.c.UfragMode == "real" {
-						sig = "agent-missing:ufrag-names-remote-ufrag"
+					sig := "agent-missing:" + p.c.Typ + where
+					what := fmt.Sprintf("AddICECandidate(%q) returned nil but the ICE agent holds no such remote candidate; %s", p.init.Candidate, sitText)
+					if p.ufragMode == "real" {
+						sig = "agent-missing:ufrag-names-remote-ufrag" + where
+						what = fmt.Sprintf("AddICECandidate(%q) returned nil and the candidate names ufrag %q of the applied remote description, but it never reached the ICE agent; %s",
+							p.init.Candidate, p.named, sitText)
 					}
-					run.Violation(sig,
-						fmt.Sprintf("AddICECandidate(%q) returned nil but the ICE agent holds no such remote candidate", p.init.Candidate), p.idx, det)
+					run.Violation(sig, what, p.idx, det)
 				case len(found) > 1:
 					run.Violation("agent-duplicate", fmt.Sprintf("one AddICECandidate(%q) produced %d remote candidates", p.init.Candidate, len(found)), p.idx, det)
 				default:
 					run.Count("agent_candidates_verified", 1)
+					if p.ufragMode == "real" {
+						run.Seen("matching_ufrag_accepted_verified", plan.Label)
+					}
 					diffs, orderOnly := c25Compare(p.c, p.want, found[0])
 					if orderOnly {
 						run.Count("model_divergence", 1)
@@ -1201,11 +1271,16 @@ func TestVerifC25(t *testing.T) { //nolint:gocognit,cyclop,maintidx
 					}
 				}
 			case "absent-ufrag":
-				if len(found) != 0 {
-					run.Violation("ufrag-mismatch-not-dropped", fmt.Sprintf("candidate %q names ufrag not in the remote description %v but reached the ICE agent",
-						p.init.Candidate, rig.ufrags), p.idx, det)
-				} else {
+				switch {
+				case len(found) != 0 && p.ufragMode == "previous-generation":
+					run.Violation("ufrag-of-replaced-description-not-dropped"+where, fmt.Sprintf("candidate %q names ufrag %q, which belongs to a remote description "+
+						"that is no longer the applied one, but it reached the ICE agent; %s", p.init.Candidate, p.named, sitText), p.idx, det)
+				case len(found) != 0:
+					run.Violation("ufrag-mismatch-not-dropped"+where, fmt.Sprintf("candidate %q names ufrag %q, not in the applied remote description %v, but reached the ICE agent; %s",
+						p.init.Candidate, p.named, rig.ufrags, sitText), p.idx, det)
+				default:
 					run.Count("ufrag_mismatch_dropped_verified", 1)
+					run.Seen("mismatching_ufrag_dropped_verified", plan.Label+": "+p.ufragMode)
 				}
 			case "unobserved":
 				if len(found) != 0 {
